@@ -12,6 +12,24 @@ def hook_commits():
         return []
 
 CHECKS = {
+ "C02": dict(
+    level="exploration",
+    technique="rapid-generated accepted configurations compiled and executed against the real runtime; model-based oracle: a DI interpreter written from the documentation predicts every object graph; comparison modulo a bijection of instance serial numbers",
+    text="Batches of behavioural configurations (all creation methods, argument forms and positions, fields, calls, withers, receiver kinds, scopes, todo/failing dependencies) are compiled, linked with the pinned runtime and probed; every returned object must equal the predicted descriptor tree and every predicted failure must surface as an error.",
+    note="Trusts the DI interpreter (written from docs, cross-validated on the unchanged tree and against mutants), the fixture objects' self-description and the Go toolchain.",
+    ref="DESIGN.md §4 C02"),
+ "C04": dict(
+    level="exploration",
+    technique="rapid tag-heavy generator (priority ties, negatives, several decorators per tag, 1..3 files) + DI-interpreter oracle on GetTaggedBy results and decorator chains observed through wrapper objects",
+    text="Decides order and membership of tagged slices and the order, payload and arguments of decorator application for thousands of tag/decorator constellations, including decorator order across merged files.",
+    note="Same trusted base as C02; decorator tag * is excluded from behavioural cases.",
+    ref="DESIGN.md §4 C04"),
+ "C05": dict(
+    level="exploration",
+    technique="bounded-exhaustive enumeration of acyclic service graphs x edge kind x scope assignment for the verdict; rapid-generated scope-heavy configurations with stateful histories of Get/GetInContext/GetTaggedBy for instance identity, against the DI interpreter",
+    text="The shared-on-contextual rule is decided completely for all graphs on <= 3 services (7920 cases) and sampled beyond; instance identity across histories (same context, different contexts, no context) is compared with the model's partition for every object occurrence.",
+    note="Same trusted base as C02 plus the reference scope analysis; cyclic graphs are C07's.",
+    ref="DESIGN.md §4 C05"),
  "C06": dict(
     level="exploration",
     technique="defect injection at every reference position (exhaustive position x reference-text matrix + rapid-mutated valid configurations) against an independent reference analysis; accepted outputs are compiled and probed",
